@@ -5,3 +5,5 @@ package s3db
 import "github.com/jrhy/s3db/kv"
 
 func verifWrapS3(c kv.S3Interface, _ S3Options) kv.S3Interface { return c }
+
+func verifReopening(*VirtualTable) {}
